@@ -16,6 +16,7 @@ Typestate rule over the producers of witness values for Redeem nodes:
 import facts as fm
 from facts import Terms, show, leaves, calls_in
 import vcc
+import roles
 
 CONVERTER = "simplicity::node::convert::Converter"
 REDEEM = "simplicity::node::redeem::Redeem"
@@ -153,7 +154,7 @@ def run(ctx, rep):
     check_viol = 0
     for f in sorted(producers, key=lambda x: x.path):
         f = F.inlined(f, ("is_of_type", "prune", "zero", "from_compact_bits", "from_padded_bits", "finalize", "arrow"))
-        who = f.impl_self.replace("simplicity::", "")
+        who = roles.who(F, f)
         if f.impl_self in EXCLUDED:
             rep.note("producer %s not checked: %s" % (who, EXCLUDED[f.impl_self]))
             continue
@@ -228,7 +229,7 @@ def run(ctx, rep):
     for f in sorted(producers, key=lambda x: x.path):
         if f.impl_self in EXCLUDED:
             continue
-        who = f.impl_self.replace("simplicity::", "")
+        who = roles.who(F, f)
         T = Terms(f)
         for cs in f.calls():
             if cs.name in ("expect", "unwrap") and cs.args:
@@ -247,9 +248,9 @@ def run(ctx, rep):
     for f in sorted(F.fns.values(), key=lambda x: x.path):
         if not (f.impl_trait == CONVERTER and target_marker(f) == REDEEM):
             continue
-        if "prune_with_tracker" in f.path:
+        if (roles.role_of(F, f.impl_self) or "").startswith("prune_with_tracker::"):
             continue   # starts from a finalised RedeemNode; its re-inference is C08's business (findings/NOTES.md)
-        who = (f.impl_self or f.path).replace("simplicity::", "") + "::" + f.name
+        who = roles.who(F, f) + "::" + f.name
         fi = F.inlined(f)
         Tn = Terms(fi, transparent={k: v for k, v in fm.TRANSPARENT_CALLS.items() if k not in ("expect", "unwrap")})
         fin_calls = [cs for cs in fi.calls() if cs.name == "finalize" and "simplicity::types" in (cs.callee or "")]
